@@ -33,6 +33,7 @@ static struct proto protos[] = {
 	{ "rep", nng_rep0_open, nng_rep0_open_raw },
 	{ "pair0", nng_pair0_open, nng_pair0_open_raw },
 	{ "pair1", nng_pair1_open, nng_pair1_open_raw },
+	{ "pair1poly", nng_pair1_open_poly, nng_pair1_open_poly },
 	{ "bus", nng_bus0_open, nng_bus0_open_raw },
 	{ "surveyor", nng_surveyor0_open, nng_surveyor0_open_raw },
 	{ "respondent", nng_respondent0_open, nng_respondent0_open_raw },
